@@ -74,7 +74,7 @@ class QuadProblem(Problem):
     """fmt: coo/csr/csc; policy: fresh | cached (one constant object per callback, only sound for
     constant derivatives) | memo (one object per evaluation point)."""
 
-    def __init__(self, spec, fmt="coo", policy="fresh", explicit_zeros=False, record=None):
+    def __init__(self, spec, fmt="coo", policy="fresh", explicit_zeros=False, record=None, dup=False):
         self.spec = spec
         self.P = np.array(spec.P, dtype=float).reshape(spec.n, spec.n)
         self.q = np.array(spec.q, dtype=float)
@@ -85,6 +85,7 @@ class QuadProblem(Problem):
         self.fmt = fmt
         self.policy = policy
         self.explicit_zeros = explicit_zeros
+        self.dup = dup
         self.record = record
         self._memo = {}
         lb = np.array(spec.lb, dtype=float)
@@ -106,6 +107,11 @@ class QuadProblem(Problem):
             S = sps.coo_matrix((M.ravel().copy(), (r.ravel(), c.ravel())), shape=M.shape)
         else:
             S = sps.coo_matrix(M)
+        if self.dup:      # duplicate COO entries v = v/2 + v/2 (exact); summed by every conversion
+            S = sps.coo_matrix((np.concatenate([S.data / 2.0, S.data / 2.0]),
+                                (np.concatenate([S.row, S.row]), np.concatenate([S.col, S.col]))), shape=M.shape)
+            if self.fmt == "coo":
+                return S
         return S.asformat(self.fmt)
 
     def _ret(self, key, x, y, make):
